@@ -139,6 +139,28 @@ fn tree_from_ast(sels: &[Val], indent: usize, out: &mut Vec<String>, parent: &st
     }
 }
 
+/// remove every `... on T {` line whose T is an interface or union, de-indenting its children
+fn strip_abstract_type_conditions(a: &[String], schema: &Schema) -> Vec<String> {
+    let mut out: Vec<String> = vec![];
+    // indents of the removed wrappers still open
+    let mut open: Vec<usize> = vec![];
+    for l in a {
+        let indent = l.len() - l.trim_start().len();
+        while open.last().is_some_and(|o| indent <= *o) {
+            open.pop();
+        }
+        let t = l.trim();
+        if let Some(ty) = t.strip_prefix("... on ").and_then(|r| r.strip_suffix(" {"))
+            && schema.types.get(ty).is_some_and(|t| matches!(t.kind, Kind::Interface | Kind::Union))
+        {
+            open.push(indent);
+            continue;
+        }
+        out.push(format!("{}{}", " ".repeat(indent - open.len()), t));
+    }
+    out
+}
+
 pub fn check(arts: &[(String, String)], schema: &Schema) -> (u64, Vec<(String, String)>) {
     let mut fails = vec![];
     let mut pairs = 0;
@@ -176,6 +198,14 @@ pub fn check(arts: &[(String, String)], schema: &Schema) -> (u64, Vec<(String, S
         tree_from_ast(sels, 0, &mut b, root, schema, &mut problems);
         if a != b {
             let first = a.iter().zip(b.iter()).position(|(x, y)| x != y).unwrap_or(a.len().min(b.len()));
+            // the refetch query of a client pointer whose target is an abstract type wraps its selections in
+            // `... on <Abstract>` in the text only: the runtime's InlineFragment normalization compares
+            // __typename with the type condition for equality, which an abstract condition never satisfies
+            let stripped = strip_abstract_type_conditions(&a, schema);
+            if stripped != a && stripped == b && path.contains("__refetch__") {
+                fails.push(("abstract-type-condition-omitted-in-refetch-normalization-ast".to_string(), format!("{path} vs {ast_path}: the operation refines to an abstract type ({}), the normalization AST has no InlineFragment node there; otherwise equal", a.iter().find(|l| l.trim_start().starts_with("... on ")).map(|l| l.trim()).unwrap_or(""))));
+                continue;
+            }
             let class = if a.get(first).is_some_and(|l| l.trim_start().starts_with("__typename")) || b.get(first).is_some_and(|l| l.trim_start().starts_with("__typename")) { "tree-differs:__typename" } else { "tree-differs" };
             fails.push((class.to_string(), format!("{path} vs {ast_path}: operation has {:?}, normalization AST has {:?} at line {first}", a.get(first), b.get(first))));
         }
@@ -213,6 +243,9 @@ pub fn main(args: &Args) -> i32 {
         Family { menu: Menu::General, k: args.tier.pick(4, 5) },
         Family { menu: Menu::Args, k: args.tier.pick(3, 4) },
         Family { menu: Menu::Abstract, k: args.tier.pick(4, 6) },
+        Family { menu: Menu::ClientArgs, k: args.tier.pick(3, 4) },
+        Family { menu: Menu::Pointers, k: args.tier.pick(3, 4) },
+        Family { menu: Menu::Overlap, k: args.tier.pick(2, 3) },
     ];
     let res = sweep::run(args, families);
     let mut verdict = Verdict::new("C11");
